@@ -50,6 +50,7 @@ def truth_records(draw, min_storms=4, max_storms=10, noise=False,
     rain, z = [], []
     m = draw(st.integers(M // 3, M - 4))
     z.append(r[m])
+    flat_spells = []
     intervals = []   # truth recessions (first_sample, last_sample, m_start)
     rises = []       # truth rises (first_sample, last_sample, depth Fraction)
 
@@ -65,6 +66,8 @@ def truth_records(draw, min_storms=4, max_storms=10, noise=False,
     lead = min(lead, M - m - 1)
     _, m = dry(lead, m)
     for _ in range(n_storms):
+        if m < 1:
+            break
         lift_to = draw(st.integers(max(0, m - 16), m - 1))
         # climb from r[m] to r[lift_to] - 1 unit in heavy steps, then drizzle
         total = r[lift_to] - 1 - r[m]
@@ -100,7 +103,18 @@ def truth_records(draw, min_storms=4, max_storms=10, noise=False,
         k_dry = min(k_dry, M - m)
         if k_dry < 1:
             break
-        start, m2 = dry(k_dry, m)
+        if noise and draw(st.integers(0, 6)) == 0:
+            # a plateau: the level does not move during this dry spell (a
+            # legitimate record - logger resolution, ponding); only used
+            # where the planted curve itself is not the oracle
+            start = len(z) - 1
+            for _ in range(k_dry):
+                rain.append(0.0)
+                z.append(z[-1])
+            m2 = m
+            flat_spells.append(start)
+        else:
+            start, m2 = dry(k_dry, m)
         # interstorm samples: the first dry sample .. the last dry sample
         intervals.append([start, len(z) - 1 - 1, m])
         m = m2
@@ -113,6 +127,8 @@ def truth_records(draw, min_storms=4, max_storms=10, noise=False,
         # perturb interior recession samples by +-1 unit (never the first
         # and last sample of a spell, never producing a jump)
         for start, last, _ in intervals:
+            if start in flat_spells:
+                continue
             for i in range(start + 1, last):
                 z[i] += draw(st.sampled_from([0, 0, 1, -1]))
     et_vals = ([draw(st.integers(0, 32)) / 64.0 for _ in range(7)]
